@@ -16,7 +16,12 @@
 (*                                                                                    *)
 (* One action per public call:                                                        *)
 (*   NewModel(m)      Model() / builder constructor                                   *)
-(*   Declare(m)       countries + sectors + GetVariableName before main               *)
+(*   DeclareHead(m)   first part of the declarations (country, first sector(s))        *)
+(*   DeclareRest(m)   remaining sectors + the calls that refer to sectors by their id: *)
+(*                    GetVariableName before main (placeholder), Sector.AddInitial-    *)
+(*                    Condition (Country.LookupSector(int) = FIRST sector with the id),*)
+(*                    income exclusions (matched by id).  Other models may be created  *)
+(*                    between the two parts.                                           *)
 (*   Main(m, lg)      Model.main(base_file_name if lg else None)                      *)
 (*   RegisterLogs     Logger.register_standard_logs(base)                             *)
 (*   Cleanup          Logger.cleanup()                                                *)
@@ -33,19 +38,21 @@ CONSTANTS
     Models,         \* model names
     Solvers,        \* stand-alone solver names
     Blocks,         \* equation block names
-    Shape,          \* Models -> [newIds, declPre, sectors, asks, own, horizon]
+    Shape,          \* Models -> [newIds, headPre, headSectors, sectors, asks, byId, own, horizon]
     BlockInfo,      \* Blocks -> [vars, early, func, horizon]
     LogNames,       \* the standard log names
     TraceSteps,     \* values TraceStep may take (0 = None)
     MaxHist,        \* bound on the history length
     AsFound_VarListCached,          \* TRUE: VariableList only extracted when empty (pinned code)
-    AsFound_TraceBreaksFunctions    \* TRUE: a traced step of a solver with a user function raises
+    AsFound_TraceBreaksFunctions,   \* TRUE: a traced step of a solver with a user function raises
+    Hyp_IdResetPerModel             \* TRUE: hypothetical design "every Model() restarts the id counter" (never the code;
+                                    \* MC_Process_hyp_idreset.cfg shows that it breaks C17_HistoryIndependent)
 
 Holders == Solvers \cup Models      \* everything that owns an EquationSolver
 
 NoBlock  == "none"
-NoDecl   == [sectorIds |-> << >>, ph |-> {}]
-NoResult == [names |-> {}, leaked |-> {}]
+NoDecl   == [sectorIds |-> << >>, ph |-> {}, refs |-> {}]
+NoResult == [names |-> {}, leaked |-> {}, booked |-> {}]
 NoSeries == [keys |-> {}, full |-> TRUE, ok |-> TRUE]
 
 ----------------------------------------------------------------------------
@@ -55,28 +62,45 @@ RegisterLogsOp(lg) == [n \in DOMAIN lg |-> IF lg[n] = "none" THEN "reg" ELSE lg[
 CleanupOp(lg) == [n \in DOMAIN lg |-> "none"]
 
 ----------------------------------------------------------------------------
-(* Models.  Shape[m].sectors: sector codes in declaration order; .asks: set of        *)
-(* <<sector index, variable>> whose full name is requested before main() (the sector   *)
-(* has no full code yet, so a placeholder that contains its id is handed out);         *)
-(* .own: the variable names the model's own declarations define.                       *)
-DeclIds(m) == Shape[m].declPre + Len(Shape[m].sectors)
+(* Models.  Shape[m].sectors: sector codes in declaration order, the first .headSectors  *)
+(* of them are created by DeclareHead (after .headPre other objects: country, zone);      *)
+(* .asks: set of <<sector index, variable>> whose full name is requested before main()   *)
+(* (the sector has no full code yet, so a placeholder that contains its id is handed     *)
+(* out); .byId: set of <<sector index, variable>> booked through the sector's id         *)
+(* (initial conditions, income exclusions); .own: the variable names the model's own     *)
+(* declarations define.                                                                  *)
+HeadIds(m) == Shape[m].headPre + Shape[m].headSectors
+RestIds(m) == Len(Shape[m].sectors) - Shape[m].headSectors
+NewBase(m, cur) == IF Hyp_IdResetPerModel THEN 0 ELSE cur
 
-DeclareOp(m, base) ==
-    LET ids == [i \in 1..Len(Shape[m].sectors) |-> base + Shape[m].declPre + i - 1]
-    IN [sectorIds |-> ids, ph |-> { << ids[a[1]], a[2] >> : a \in Shape[m].asks }]
+DeclareHeadOp(m, base) ==
+    [sectorIds |-> [i \in 1..Shape[m].headSectors |-> base + Shape[m].headPre + i - 1], ph |-> {}, refs |-> {}]
+
+DeclareRestOp(m, d, base) ==
+    LET ids == d.sectorIds \o [i \in 1..RestIds(m) |-> base + i - 1]
+    IN [sectorIds |-> ids,
+        ph   |-> { << ids[a[1]], a[2] >> : a \in Shape[m].asks },
+        refs |-> { << ids[a[1]], a[2] >> : a \in Shape[m].byId }]
 
 PlaceholderText(p) == "_" \o ToString(p[1]) \o "__" \o p[2]
 Resolvable(d, p) == \E i \in DOMAIN d.sectorIds : d.sectorIds[i] = p[1]
-Resolve(m, d, p) == LET i == CHOOSE j \in DOMAIN d.sectorIds : d.sectorIds[j] = p[1]
-                    IN Shape[m].sectors[i] \o "__" \o p[2]
+(* an id is looked up by scanning the sector list: the FIRST sector that carries it answers *)
+FirstWith(d, id) == CHOOSE j \in DOMAIN d.sectorIds :
+                        /\ d.sectorIds[j] = id
+                        /\ \A i \in DOMAIN d.sectorIds : d.sectorIds[i] = id => j <= i
+Resolve(m, d, p) == Shape[m].sectors[FirstWith(d, p[1])] \o "__" \o p[2]
 
 (* main(): full codes are generated, every registered placeholder is replaced by the   *)
-(* full name of the variable it stands for (Model._FixAliases), the system is solved.  *)
+(* full name of the variable it stands for (Model._FixAliases), what was booked by id   *)
+(* lands on the sector the lookup finds, the system is solved.                          *)
 MainOp(m, d) ==
     [names  |-> Shape[m].own \cup { IF Resolvable(d, p) THEN Resolve(m, d, p) ELSE PlaceholderText(p) : p \in d.ph },
-     leaked |-> { p[1] : p \in { q \in d.ph : ~Resolvable(d, q) } }]
+     leaked |-> { p[1] : p \in { q \in d.ph : ~Resolvable(d, q) } },
+     booked |-> { Resolve(m, d, r) : r \in d.refs }]
 
-Expected(m) == [names |-> Shape[m].own, leaked |-> {}]     \* a function of m's own declarations only
+Expected(m) ==      \* a function of m's own declarations only
+    [names |-> Shape[m].own, leaked |-> {},
+     booked |-> { Shape[m].sectors[a[1]] \o "__" \o a[2] : a \in Shape[m].byId }]
 
 ----------------------------------------------------------------------------
 (* Solvers.  BlockInfo[b].vars: the variables of b (without the time axis "k");         *)
@@ -129,18 +153,27 @@ Note(a, x, b, k) == /\ Len(hist) < MaxHist
 NewModel(m) ==
     /\ mstate[m] = "absent"
     /\ mstate' = [mstate EXCEPT ![m] = "new"]
-    /\ nextId' = nextId + Shape[m].newIds
+    /\ nextId' = NewBase(m, nextId) + Shape[m].newIds
     /\ logs' = Touch(logs, "log")                 \* 'EconomicObject Created'
     /\ Note("NewModel", m, "", 0)
     /\ UNCHANGED << decl, result, svars, traceStep >>
 
-Declare(m) ==
+DeclareHead(m) ==
     /\ mstate[m] = "new"
-    /\ mstate' = [mstate EXCEPT ![m] = "declared"]
-    /\ decl' = [decl EXCEPT ![m] = DeclareOp(m, nextId)]
-    /\ nextId' = nextId + DeclIds(m)
+    /\ mstate' = [mstate EXCEPT ![m] = "head"]
+    /\ decl' = [decl EXCEPT ![m] = DeclareHeadOp(m, nextId)]
+    /\ nextId' = nextId + HeadIds(m)
     /\ logs' = Touch(logs, "log")
-    /\ Note("Declare", m, "", 0)
+    /\ Note("DeclareHead", m, "", 0)
+    /\ UNCHANGED << result, svars, traceStep >>
+
+DeclareRest(m) ==
+    /\ mstate[m] = "head"
+    /\ mstate' = [mstate EXCEPT ![m] = "declared"]
+    /\ decl' = [decl EXCEPT ![m] = DeclareRestOp(m, decl[m], nextId)]
+    /\ nextId' = nextId + RestIds(m)
+    /\ logs' = Touch(logs, "log")
+    /\ Note("DeclareRest", m, "", 0)
     /\ UNCHANGED << result, svars, traceStep >>
 
 Main(m, lg) ==
@@ -188,13 +221,13 @@ SolveAgain(s) == block[s] # NoBlock /\ solved[s] /\ DoSolve(s, "SolveAgain")
 
 SetTrace(x, k) ==
     /\ k # traceStep[x]
-    /\ x \in Models => mstate[x] \in {"new", "declared"}
+    /\ x \in Models => mstate[x] \in {"new", "head", "declared"}
     /\ traceStep' = [traceStep EXCEPT ![x] = k]
     /\ Note("SetTrace", x, "", k)
     /\ UNCHANGED << nextId, logs, mvars, svars >>
 
 Next ==
-    \/ \E m \in Models : NewModel(m) \/ Declare(m) \/ Main(m, TRUE) \/ Main(m, FALSE)
+    \/ \E m \in Models : NewModel(m) \/ DeclareHead(m) \/ DeclareRest(m) \/ Main(m, TRUE) \/ Main(m, FALSE)
     \/ ({n \in LogNames : logs[n] = "none"} # {}) /\ RegisterLogs
     \/ ({n \in LogNames : logs[n] # "none"} # {}) /\ Cleanup
     \/ \E s \in Solvers : Solve(s) \/ SolveAgain(s) \/ \E b \in Blocks : Reparse(s, b)
@@ -218,7 +251,7 @@ C17_ResolveIdempotent ==
 TypeOK ==
     /\ nextId \in Nat
     /\ \A n \in LogNames : logs[n] \in {"none", "reg", "open"}
-    /\ \A m \in Models : mstate[m] \in {"absent", "new", "declared", "built"}
+    /\ \A m \in Models : mstate[m] \in {"absent", "new", "head", "declared", "built"}
     /\ \A s \in Solvers : block[s] \in Blocks \cup {NoBlock}
     /\ \A x \in Holders : traceStep[x] \in TraceSteps
     /\ Len(hist) <= MaxHist
